@@ -130,7 +130,7 @@ def finders(ctx, P):
         gf = g.formula(sub)
         for a_ in F.atoms(gf):
             if re.fullmatch(r".+ \+ .+ < .+", a_) and F.implies(gf, F.mk_not(F.atom(a_))):
-                under.add(a_)
+                under.add(F.strip_stale(a_))    # the loop lowers the usage: inside it the same test reads the current value
     if not under:
         raise AnalysisBroken("FindFilesToPrune: the usage-vs-target test enclosing the scan was not recognised")
     nb = 0
